@@ -64,6 +64,10 @@ def check(reg, tier):
             jobs.append((kind, relative))
     run_parallel(reg, _job, jobs)
     _degenerate(reg)
+    # "relative for size parameters, absolute for angles": the flag the interfaces hand to get_weights comes from the
+    # parameter table; checked against the declarations of every builtin model (vector elements included)
+    from contracts import tables
+    tables.check(reg, PROP, "relative")
     # lemma linspace_mono: i < i2, a < b, n >= 2  =>  a + i (b-a)/(n-1) < a + i2 (b-a)/(n-1)
     i1, i2, nn = z3.Ints("i i2 n")
     a, b = z3.Reals("a b")
